@@ -265,6 +265,41 @@ fn single_edit_large(seed: u64, idx: u64, rep: &mut Report) {
     rep.count("single_edit_cases_over_4MiB", 1);
 }
 
+/// The single-edit bound when k is LARGE: 24-40 MiB of fresh data inserted into a small file of distinct blocks. The
+/// scan slides tens of millions of windows without a match before the basis's blocks come back; whatever state it
+/// carries along (sums that are reduced only now and then, counters, hints) must still find them.
+fn big_insert(seed: u64, idx: u64, rep: &mut Report) {
+    let mut rng = Rng::derive(seed, 1621, idx);
+    rep.evaluations += 1;
+    let bs = *rng.pick(&[512usize, 1024, 4096, 65536]);
+    let nb = (256 * 1024 / bs).max(4);
+    let mut basis = rng.bytes(nb * bs);
+    for i in 0..nb {
+        basis[i * bs..i * bs + 4].copy_from_slice(&(i as u32).to_le_bytes());
+    }
+    let k = rng.range(24 * 1024 * 1024, 40 * 1024 * 1024);
+    let at = match rng.below(3) {
+        0 => 0,
+        1 => bs * rng.range(1, nb - 1),
+        _ => rng.range(1, basis.len() - 1),
+    };
+    // high bytes make every running sum grow as fast as it can
+    let ins: Vec<u8> = if rng.below(2) == 0 { rng.bytes(k) } else { rng.bytes(k).into_iter().map(|b| b | 0xC0).collect() };
+    let mut source = Vec::with_capacity(basis.len() + k);
+    source.extend_from_slice(&basis[..at]);
+    source.extend_from_slice(&ins);
+    source.extend_from_slice(&basis[at..]);
+    let ctx = json!({"seed": seed, "case": idx, "family": "big-insert", "bs": bs, "basis_bytes": basis.len(), "k": k, "at": at});
+    let bound = k as u64 + 2 * bs as u64;
+    for (eng, l) in lit_of(&basis, &source, bs, &ctx, rep) {
+        if l > bound {
+            rep.violation(&format!("C16|{eng}|single-edit-literal>k+2bs|insert-of-tens-of-MiB"), json!({"ctx": ctx, "literal": l, "bound": bound}));
+        }
+    }
+    rep.distinct.insert(format!("big-insert|bs{bs}"));
+    rep.count("single_edit_cases_with_k_over_24MiB", 1);
+}
+
 pub fn run(seed: u64, thorough: bool, cases: Option<u64>) -> Report {
     let n = cases.unwrap_or(if thorough { 30_000 } else { 1200 });
     let mut rep = par_cases(n, |i, r| general(seed, i, r));
@@ -273,6 +308,7 @@ pub fn run(seed: u64, thorough: bool, cases: Option<u64>) -> Report {
         rep.merge(par_cases(n / 3, |i, r| single_edit(seed, i, r)));
         rep.merge(par_cases(if thorough { 60 } else { 6 }, |i, r| single_edit_large(seed, i, r)));
         rep.merge(par_cases(n / 3, |i, r| basis_then_reuse(seed, i, r)));
+        rep.merge(par_cases(if thorough { 16 } else { 3 }, |i, r| big_insert(seed, i, r)));
     }
     rep
 }
